@@ -42,13 +42,14 @@ def _explore(args):
         return ("analysis-error", str(e))
 
 
-def explorations(tree, tier, seed=0, rep=None):
+def explorations(tree, tier, seed=0, rep=None, extra=()):
     """run the environments of the tier; returns {envname: Summary}.  Cached per process by file digest.
     With rep.skip_a3 set (first pass of the checker self-test) nothing is explored and {} is returned."""
     from .srcmodel import AnalysisError
     if rep is not None and getattr(rep, "skip_a3", False):
         return {}
     envs = QUICK_ENVS if tier == "quick" else THOROUGH_ENVS
+    envs = list(envs) + [e for e in extra if e not in envs]     # environments one property asks for on top of its tier's
     dig = (tuple(sorted((p, hash(t)) for p, t in tree.files.items())), seed)
     out = {}
     todo = []
